@@ -836,7 +836,11 @@ func (g *gen) genCmd(ti, ci, failPct int, lit map[string]string) cmdSpec {
 		if g.chance(1, 3) {
 			k.status = 1 + g.rng.Intn(255)
 		}
-		if g.chance(1, 5) {
+		if g.chance(1, 8) {
+			// a program that is not installed: status 127 like any other failure
+			k.status = 127
+			tail = "; nosuchprogramzz" + mark + " --version"
+		} else if g.chance(1, 5) {
 			// the failing statement is NOT the last one of the command line: the line stops there (errexit)
 			k.status = 1
 			tail = "; test -f /nonexistent/file; echo never" + mark
